@@ -5,6 +5,20 @@ from . import tlc
 from .report import Machinery
 
 
+def _clean(x):
+    """TLC's Json module rejects null and truncates floats: an observation holding either must reach the monitor (and be judged
+    unequal to what the contract expects) instead of crashing it"""
+    if x is None:
+        return "#null"
+    if isinstance(x, float):
+        return "#float:%r" % x
+    if isinstance(x, dict):
+        return {k: _clean(v) for k, v in x.items()}
+    if isinstance(x, (list, tuple)):
+        return [_clean(v) for v in x]
+    return x
+
+
 def _parse(res, n_expected_traces, expected):
     bad = []
     # TLC wraps long tuples over several lines: match across line breaks, and count the markers independently
@@ -34,7 +48,7 @@ def judge(trace_module, traces, work, chunk=1000, jvms=16, cfg="Monitor.cfg", he
         p = os.path.join(work, "traces_%s_%04d.ndjson" % (trace_module, i))
         with open(p, "w") as f:
             for t in c:
-                f.write(json.dumps(t, separators=(",", ":")) + "\n")
+                f.write(json.dumps(_clean(t), separators=(",", ":")) + "\n")
         files.append((p, len(c), sum(len(t['steps']) + 1 for t in c)))
 
     def one(a):
